@@ -374,8 +374,12 @@ pub fn gen_sys(r: &mut Rng) -> String {
     // one script in four is a duel: one or two pieces, several peers that have everything — end game, the same piece
     // fetched on several connections, the losers cancelled
     let duel = r.chance(1, 4);
-    let np = if duel { 1 + r.below(2) as usize } else { *r.pick(&[1usize, 2, 3, 4, 6, 11, 12]) };
-    let plen = if duel { *r.pick(&[100usize, 20000]) } else { *r.pick(&[100usize, 100, 20000, 40000]) };
+    // one in six of the others is a recall: far from the end game a peer that offers a single piece unchokes us twice in
+    // a row — the second Unchoke finds nothing new for it (its piece is still reserved), the manager takes the piece
+    // back and answers SendNotInterested — and only then answers the requests it got after the first
+    let recall = !duel && r.chance(1, 6);
+    let np = if duel { 1 + r.below(2) as usize } else if recall { 11 + r.below(2) as usize } else { *r.pick(&[1usize, 2, 3, 4, 6, 11, 12]) };
+    let plen = if duel { *r.pick(&[100usize, 20000]) } else if recall { *r.pick(&[20000usize, 40000]) } else { *r.pick(&[100usize, 100, 20000, 40000]) };
     let tie = r.next() % 1_000_000;
     let max_conns = if duel { 2 + r.below(2) as usize } else { 1 + r.below(4) as usize };
     let steps = 6 + r.below(34) as usize;
@@ -394,6 +398,20 @@ pub fn gen_sys(r: &mut Rng) -> String {
             preface.push(format!("f{}:bf,{}", k, hex(&vec![0xffu8 << ((8 - np % 8) % 8); (np + 7) / 8])));
             preface.push(format!("f{}:un", k));
         }
+        preface.reverse();
+    }
+    if recall {
+        let bit = r.below(np as u64) as usize;
+        let mut bytes = vec![0u8; (np + 7) / 8];
+        bytes[bit / 8] |= 0x80 >> (bit % 8);
+        preface.push("a0".to_string());
+        preface.push(format!("f0:hs,{},{}", PLACEHOLDER, hex(&[0x41u8; 20])));
+        preface.push(format!("f0:bf,{}", hex(&bytes)));
+        preface.push("f0:un".to_string());
+        if r.coin() {
+            preface.push("f0:in".to_string());
+        }
+        preface.push("f0:un".to_string());
         preface.reverse();
     }
     for _ in 0..steps + preface.len() {
